@@ -1,41 +1,22 @@
 #!/usr/bin/env python3
-"""Writes /verif/MANIFEST.json from the table below (single source of truth for the registered checks)."""
-import json, os
+"""Writes MANIFEST.json from the fragments in manifest.d/<ID>.json (keys: technique, text, note, design[, category])."""
+import json, os, glob
 
+HERE = os.path.dirname(os.path.dirname(os.path.abspath(__file__)))
 ALL = [f"C{i:02d}" for i in range(1, 21)]
-
-CHECKS = {
- "C17": dict(
-   technique="Coq proof over truth tables regenerated from the source (T1) + exhaustive model/implementation correspondence evaluated by vm_compute",
-   text="The two compatibility relations and the Arrow-type map are finite functions: their complete graphs are regenerated from "
-        "/repo on every run and the Coq kernel proves them equal to the documented tables (121 pairs each, 24 Arrow types), and "
-        "proves that the modelled validate/strict-flag/conflict decision raises exactly on incompatible declared+present+supported "
-        "columns. The hand-written decision model is tied to the code by running the real validator, the real run_all matrix on "
-        "three frameworks and the real prepare on the complete finite input space and evaluating the model on the same points in coqc.",
-   note="Trusted: Coq kernel + vm_compute; gen_tables.py (translator by exhaustive evaluation); pyarrow type predicates; "
-        "Model/Validate.v is hand-written (control flow of validate, _process_features, set_data_type) and tied by exhaustive correspondence.",
-   design="4/C17"),
- "C18": dict(
-   technique="Coq proof (refinement of the documented link rule, order-independence of validation, prefix rule for all tuples) + model/implementation correspondence by vm_compute",
-   text="Theorems quantify over every class hierarchy, link list and class pair: outside the stated asymmetric domain the links found are "
-        "exactly those of the documented rule (exact first, else balanced ancestors at minimal distance, same concrete class for self "
-        "links); never a sibling mismatch; closest wins; validation verdict = existence of a contradicting pair and is invariant under "
-        "permutation of the set; is_a_part_of_ is the prefix relation for tuples of any length. The documented rule is refuted on the "
-        "faithful model by a kernel-checked witness (known finding). The model is tied to the code by running _find_matching_links, "
-        "validate_links, Index/supports_index and prepare() on generated class forests and evaluating the model on the same inputs.",
-   note="Trusted: Coq kernel + vm_compute; hand-written Model/LinkSel.v; Python issubclass/__mro__ on single-inheritance forests; unique class names. "
-        "Index tuples are exhaustive up to length 3 over 3 letters, the rest is PRNG-sampled (VERIF_SEED).",
-   design="4/C18"),
-}
-
 NOT_YET = "check not built yet in this session (see DESIGN.md section 8 staging); not claimed"
+NA_REASONS = {}
+if os.path.exists(os.path.join(HERE, "manifest.d", "not_applicable.json")):
+    NA_REASONS = json.load(open(os.path.join(HERE, "manifest.d", "not_applicable.json")))
+
 
 def main():
     checks = []
     for pid in ALL:
-        if pid not in CHECKS:
+        f = os.path.join(HERE, "manifest.d", f"{pid}.json")
+        if not os.path.exists(f):
             continue
-        c = CHECKS[pid]
+        c = json.load(open(f))
         checks.append({
             "property_id": pid,
             "quick_cmd": f"./check {pid} --tier quick",
@@ -47,6 +28,7 @@ def main():
             "level_note": c["note"],
             "technique": c["technique"],
         })
+    claimed = {c["property_id"] for c in checks}
     m = {
         "version": 1,
         "setup_cmd": "./check --setup",
@@ -54,14 +36,15 @@ def main():
                   "harness-side subclasses and instance wrapping; MLODA_VERIF=1 is exported by ./check but read by nothing in /repo",
                   "baseline_off_cmd": "/verif/tools/baseline_check.py", "source_commits": [], "add_only": True},
         "engines": [{"name": "coq-proof+correspondence", "path": "/verif/check",
-                     "serves_properties": [c["property_id"] for c in checks],
+                     "serves_properties": sorted(claimed),
                      "kind_free_text": "Coq 8.16.1 development under /verif/coq (Model/Spec/Proofs/Props, Gen regenerated from /repo) "
                                        "plus Python harness that runs mloda and evaluates the Coq models on the same inputs with coqc/vm_compute"}],
         "checks": checks,
         "notes": "fix commits in /repo: see known_findings.json (status fixed:<commit>).",
-        "not_applicable": [{"property_id": p, "reason": NOT_YET} for p in ALL if p not in CHECKS],
+        "not_applicable": [{"property_id": p, "reason": NA_REASONS.get(p, NOT_YET)} for p in ALL if p not in claimed],
     }
-    json.dump(m, open("/verif/MANIFEST.json", "w"), indent=1)
+    json.dump(m, open(os.path.join(HERE, "MANIFEST.json"), "w"), indent=1)
     print("wrote MANIFEST.json with", len(checks), "checks")
+
 
 main()
